@@ -125,7 +125,8 @@ public class Math {
     }
 
     public static BigInteger mod(BigInteger b1, BigInteger b2) {
-        return b1.mod(b2);
+        // BigInteger.mod refuses a negative modulus; the residue is taken modulo |b2| (as mpz_mod does)
+        return b1.mod(b2.abs());
     }
 
     public static BigInteger quo(BigInteger b1, BigInteger b2) {
